@@ -2847,6 +2847,9 @@ pub struct PromiseHandler {
     pub on_rejected: Option<JsValue>,
     /// The promise returned by .then()/.catch()
     pub result_promise: JsObjectRef,
+    /// Registered by `.finally()`: the callback is called without arguments and the
+    /// settlement of the original promise passes through to `result_promise`
+    pub is_finally: bool,
 }
 
 /// Saved frame state for generators
